@@ -33,6 +33,9 @@ for p in props:
         continue
     level = getattr(mod, "LEVEL", "exploration")
     used = getattr(mod, "ENGINES", ["E3-E4-rtc"] + (["E1-pyvc"] if hasattr(mod, "prove") else []))
+    alias = {"E4-rtc": "E3-E4-rtc", "E3-rtc": "E3-E4-rtc", "E1": "E1-pyvc", "E2": "E2-frame"}
+    used = [alias.get(e, e) for e in used]
+    used = [e for e in used if e in engines] or ["E3-E4-rtc"]
     for e in used:
         engines[e]["serves_properties"].append(pid)
     checks.append({
